@@ -17,7 +17,7 @@ COQ = os.path.join(VERIF, "coq")
 CASES = os.path.join(COQ, "cases")
 EVID = os.path.join(VERIF, "evidence")
 REPLAYS = os.path.join(VERIF, "replays")
-REPO = "/repo"
+REPO = os.environ.get("VERIF_REPO", "/repo").rstrip("/")
 JOBS = int(os.environ.get("VERIF_JOBS", "16"))
 COQ_FLAGS = ["-Q", os.path.join(COQ, "theories"), "FGV", "-w",
              "-notation-overridden,-ambiguous-paths,-deprecated-hint-without-locality"]
